@@ -162,25 +162,27 @@ fn sat_list(l: &[MediaQuery], env: Env) -> bool {
     false
 }
 
-/// outer list of two queries (shapes S1, S2 with one condition each), inner list of one or two queries
-pub fn check_lists<const S1: u8, const S2: u8, const S3: u8, const S4: u8>() {
-    let outer = [any_query::<S1, 1>(), any_query::<S2, 1>()];
-    let inner = [any_query::<S3, 1>(), any_query::<S4, 1>()];
+/// outer list of NO queries, inner list of NI queries; every query has shape S (see any_query) and NC conditions
+pub fn check_lists<const NO: usize, const NI: usize, const S: u8, const NC: usize>() {
+    let mut outer = Vec::with_capacity(NO);
+    let mut inner = Vec::with_capacity(NI);
     let mut k = 0;
-    while k < 2 {
-        kani::assume(!(outer[k].modifier.is_some() && is_all(&outer[k])));
-        kani::assume(!(inner[k].modifier.is_some() && is_all(&inner[k])));
-        k += 1;
-    }
+    while k < NO { outer.push(any_query::<S, NC>()); k += 1; }
+    let mut k = 0;
+    while k < NI { inner.push(any_query::<S, NC>()); k += 1; }
+    let mut k = 0;
+    while k < NO { kani::assume(!(outer[k].modifier.is_some() && is_all(&outer[k]))); k += 1; }
+    let mut k = 0;
+    while k < NI { kani::assume(!(inner[k].modifier.is_some() && is_all(&inner[k]))); k += 1; }
     let env = Env { ty: kani::any(), feat: kani::any() };
     kani::assume(env.ty <= 2);
     let want = sat_list(&outer, env) && sat_list(&inner, env);
     match media_merge_lists(&outer, &inner) {
         Some(merged) => {
-            assert!(merged.len() <= 4, "C17b: merged list longer than the cartesian product");
+            assert!(merged.len() <= NO * NI, "C17b: merged list longer than the cartesian product");
             assert!(sat_list(&merged, env) == want, "C17b: the merged query list is not the intersection of the two lists");
             kani::cover!(merged.len() >= 2, "two_results");
-            kani::cover!(merged.is_empty(), "all_empty");
+            kani::cover!(merged.len() == 1 && NO * NI >= 2, "one_dropped");
             core::mem::forget(merged);
         }
         None => { kani::cover!(true, "unrepresentable"); }
@@ -191,13 +193,14 @@ pub fn check_lists<const S1: u8, const S2: u8, const S3: u8, const S4: u8>() {
 }
 
 macro_rules! linst {
-    ($name:ident, $a:expr, $b:expr, $c:expr, $d:expr) => {
+    ($name:ident, $no:expr, $ni:expr, $s:expr, $nc:expr) => {
         #[kani::proof]
         #[kani::unwind(8)]
-        pub fn $name() { check_lists::<$a, $b, $c, $d>() }
+        pub fn $name() { check_lists::<$no, $ni, $s, $nc>() }
     };
 }
 // shapes: 0 = conditions only, 1 = type, 2 = `not` type, 3 = `only` type
-linst!(c17b_lists_tt_tt, 1, 1, 1, 1);
-linst!(c17b_lists_tc_tt, 1, 0, 1, 1);
-linst!(c17b_lists_tt_ot, 1, 1, 3, 1);
+linst!(c17b_lists_1x2_t0, 1, 2, 1, 0);
+linst!(c17b_lists_2x1_t0, 2, 1, 1, 0);
+linst!(c17b_lists_1x2_t1, 1, 2, 1, 1);
+linst!(c17b_lists_2x2_t0, 2, 2, 1, 0);
